@@ -34,14 +34,15 @@ func main() {
 	c.SetRule("tree workload: a case = (generated stage tree: shape, sync/async per stage, plan of real PlanNodes, outcome per operator " +
 		"{ok, error, ErrNotFound ignored/not ignored, panic string/error/value/runtime}, panics in Plan()/NextStages()) x (schedule: in serial mode every " +
 		"stage parks at a gate and the driver opens one gate at a time – every order for small trees (depth-first over the decision points), " +
-		"seeded random orders for large ones; in free mode seeded micro delays on bounded pools). Non-trivial = at least two stages were registered " +
+		"seeded random orders for large ones; in free mode seeded micro delays on bounded pools; one tree in eight is also run with the pooled stages' " +
+		"context cancelled in mid-flight, one in 25 is a wide tree of 10-23 pooled children). Non-trivial = at least two stages were registered " +
 		"with the pipeline; distinct = (canonical tree, observed completion order incl. callback position). " +
 		"leaf workload: a case = (query shape, per-shard fault {none, too many series (real operator error), injected error/panic at Filter, Load, GetDataFamilies}, " +
 		"order in which the shards' stages are released); distinct = (query shape, fault assignment, release order)")
 	c.Assume("the harness stage wrapper only records calls and delegates to stage.VerifStage (which embeds the real baseStage); " +
 		"operators, Plan(), NextStages() and Complete() are harness code, everything between them (pipeline, state machine, baseStage.Execute/execute, concurrent.Pool) is lindb's")
-	c.Assume("a pool is idle when a sentinel task submitted after all observed activity has run (FIFO queue, one dispatcher) and its task counters match; " +
-		"a grace period is applied only after that logical condition")
+	c.Assume("a pool is idle when its own consumed/panic/rejected counters equal the number of tasks the harness saw handed to it " +
+		"and (tree workload) Pool.Stop() has returned; no verdict depends on elapsed time, stalled cases end as inconclusive")
 	c.Assume("stages running on a pool only submit to pools of deeper levels (as lindb's Filtering -> Grouping -> Scanner), so bounded pools cannot self-deadlock")
 
 	scratch := c.Scratch()
